@@ -20,6 +20,7 @@ recipe = {
                                           #   frac == 0 -> exactly on the layer's bottom boundary; 0<frac<1 inside; frac>=1 -> above
                                           #   the top of the model by (frac-1) layer thicknesses (layer forced to the top one)
   'sunk': [[col, depth]],                 # columns whose surface is `depth` below the bottom of the model (no blocks)
+  'layer_centres': [[layer, frac]], 'zero_centre': layer,   # layer centres off the mid-point; geometry shifted so that one is exactly 0.0
   'centres': [[col, fx, fy]],             # specified column centres (offset from centroid, fraction of bounding box)
   'wells': [{'name': 'W   1', 'pts': [[fx, fy, fz], ...]}],
   'header': {'unit': ''|'FEET ', 'perm_angle': a, 'atmos_volume': v, 'atmos_connection': d}
@@ -390,6 +391,17 @@ def build(rc):
             pts = [np.array([bd[0][0] + fx * (bd[1][0] - bd[0][0]), bd[0][1] + fy * (bd[1][1] - bd[0][1]),
                              ztop + fz * (zbot - ztop)]) for fx, fy, fz in w['pts']]
             g.add_well(mulgrids.well(w['name'], pts))
+    if rc.get('layer_centres'):
+        # layer centres are data of their own (the LAYERS records carry them): off the mid-point, and - after a vertical
+        # shift by minus that centre - one of them exactly 0.0
+        import numpy as np
+        und2 = g.layerlist[1:]
+        for li, fr in rc['layer_centres']:
+            lay = und2[li % len(und2)]
+            lay.centre = lay.bottom + fr * (lay.top - lay.bottom)
+        if rc.get('zero_centre') is not None:
+            lay = und2[rc['zero_centre'] % len(und2)]
+            g.translate(np.array([0., 0., -float(lay.centre)]), wells=True)
     h = rc.get('header', {})
     if 'unit' in h: g.unit_type = h['unit']
     if 'perm_angle' in h: g.permeability_angle = h['perm_angle']
@@ -621,6 +633,7 @@ def describe(rc):
     if any(fr >= 1 for _c, _l, fr in rc.get('surfaces', [])): out.append('surface:above-top')
     if any(fr == 0 for _c, _l, fr in rc.get('surfaces', [])): out.append('surface:on-boundary')
     if rc.get('sunk'): out.append('surface:below-model-bottom')
+    if rc.get('layer_centres'): out.append('layer-centres:off-mid-point' + (':one-exactly-zero' if rc.get('zero_centre') is not None else ''))
     if rc.get('wells'): out.append('wells')
     if rc.get('header', {}).get('unit'): out.append('feet')
     return out
